@@ -229,5 +229,38 @@ def rule(facts, res, rule_name, comp_fns, want=("G1", "G2", "G3", "G4", "G5"), f
         res.oblige(n - bad, True)
         res.oblige(bad, False)
     if st["instances"] < floor:
+        # No member of the recursion carries a visited collection.  When the recursion itself is still there, the only other
+        # sound guard is a depth bound (an integer compared with a limit in an `if` whose taken branch leaves the function,
+        # handed on to the recursive call); a single remembered key (`origin: Option<&str>`) sees cycles through that key only.
+        rec = [f for f in comp_fns if "body" in f and f["id"] in scc_of and _data_recursion(f)]
+        if rec and ({"G1", "G2"} & set(want)):
+            rec.sort(key=lambda f: (len(scc_of[f["id"]]), f["path"]))
+            open_ = [f for f in rec if not _depth_bound(f, scc_of[f["id"]])]
+            if open_ and len(open_) == len(rec):
+                for f in open_[:1]:
+                    st["instances"] += 1
+                    res.oblige(1, False)
+                    res.add(Finding(rule_name, "%s|G1" % f["path"], "%s recurses over references the input controls and neither it nor another "
+                                    "member of its cycle carries a visited collection (or a depth bound): a definition cycle that does not "
+                                    "pass through the remembered key recurses without bound" % f["path"], f["file"], f.get("line"), {}))
+                return st
         raise BrokenCheck("%s: %d visited-set guards found (floor %d)" % (rule_name, st["instances"], floor))
     return st
+
+
+def _data_recursion(f):
+    """f looks up an entity by a name taken from data (`context.entity(name)`): the recursion follows the document's graph"""
+    return any(n.get("k") == "MethodCall" and n.get("m") in ("entity", "get_entity", "entities") for n, _ in ordered(f["body"]))
+
+
+def _depth_bound(f, self_ids):
+    ints = {p.get("lid") for p in f.get("params", []) if str(p.get("ty", "")) in ("usize", "u32", "u64", "u16", "u8", "i32", "i64")}
+    if not ints:
+        return False
+    for n, _ in ordered(f["body"]):
+        if n.get("k") == "If" and _diverges(n["then"]):
+            for c, _ in ordered(n["cond"]):
+                if c.get("k") == "Binary" and c.get("op") in (">", ">=", "<", "<=", "==") and \
+                        any(x.get("k") == "Path" and x.get("lid") in ints for x, _ in ordered(c)):
+                    return True
+    return False
